@@ -32,14 +32,40 @@ def signed_specials(w, kind):
     return vals + [x % m for x in s if -(1 << (w - 1)) <= x < (1 << (w - 1))]
 
 
+NOT_AVAILABLE = {"sog": [1023, 63], "cog": [3600, 511], "heading": [511], "rot": [128], "altitude": [4095],
+                 "minute": [60], "second": [60], "eta_minute": [60]}
+
+
 def field_specials(name, w):
     vals = {0, 1, (1 << w) - 1, (1 << w) - 2, 1 << (w - 1)}
+    codes = [c for c in NOT_AVAILABLE.get(name, []) if c < (1 << w)]
     if name in ("lon", "lat"):
         vals |= set(signed_specials(w, name))
+        codes += [{28: 108600000, 27: 54600000, 18: 108600, 17: 54600}[w]]
     for v in SENTINELS.get(name, []):
         if v < (1 << w):
             vals.add(v)
+    # the 'not available' code with any one bit flipped (a comparison that ignores a bit, the sign bit above all)
+    for c in codes:
+        for b in range(w):
+            vals.add(c ^ (1 << b))
     return sorted(v for v in vals if 0 <= v < (1 << w))
+
+
+# (d) moments a maintainer might special-case: leap seconds, ends of months, the epoch, 'not available' mixes
+NOTABLE_TIMES = [(2016, 12, 31, 23, 59, 60), (2015, 6, 30, 23, 59, 60), (2024, 2, 29, 12, 0, 0), (2023, 2, 29, 0, 0, 0),
+                 (2000, 1, 1, 0, 0, 0), (1970, 1, 1, 0, 0, 0), (0, 0, 0, 24, 60, 60), (0, 12, 31, 23, 59, 59), (2020, 0, 0, 0, 0, 0),
+                 (9999, 12, 31, 23, 59, 59), (16383, 15, 31, 31, 63, 63), (2038, 1, 19, 3, 14, 7), (2024, 12, 31, 23, 59, 60),
+                 (2024, 6, 30, 23, 59, 60), (2024, 4, 31, 0, 0, 0), (2024, 12, 31, 24, 0, 0), (0, 6, 30, 23, 59, 60), (2024, 12, 31, 23, 59, 61)]
+
+
+def apply_notable_time(f, t):
+    y, mo, d, h, mi, sec = t
+    for k, v in (("year", y), ("month", mo), ("day", d), ("hour", h), ("minute", mi), ("second", sec),
+                 ("eta_month", mo), ("eta_day", d), ("eta_hour", h), ("eta_minute", mi)):
+        if k in f:
+            f[k] = v
+    return f
 
 
 TEXT_FIELDS = {"callsign", "vessel_name", "destination", "name", "vendor_id", "model_serial"}
@@ -70,12 +96,45 @@ def type_code(t):
     return 24 if isinstance(t, str) else t
 
 
+MMSI_FAMILIES = 10
+
+
+def structured_mmsi(rng, family=None):
+    """A 30-bit station identity shaped like the families ITU-R M.585 reserves (a maintainer might special-case
+    any of them): aids to navigation 99MID1XXX/99MID6XXX, SART/MOB/EPIRB 970/972/974, SAR aircraft 111MIDXXX, coast
+    stations 00MIDXXXX, groups 0MIDXXXXX, handhelds 8MIDXXXXX, auxiliary craft 98MIDXXXX, and values that are not
+    nine-digit numbers at all."""
+    mid = rng.choice([201, 227, 232, 244, 316, 338, 366, 367, 369, 412, 431, 503, 525, 563, 636, 775])
+    r = rng.randrange(12) if family is None else family
+    if r == 0:
+        return 990000000 + mid * 10000 + rng.choice([1, 6, 6, 6]) * 1000 + rng.randrange(1000)
+    if r == 1:
+        return rng.choice([970, 972, 974]) * 1000000 + rng.randrange(1000000)
+    if r == 2:
+        return 111000000 + mid * 1000 + rng.randrange(1000)
+    if r == 3:
+        return mid * 10000 + rng.randrange(10000)
+    if r == 4:
+        return mid * 100000 + rng.randrange(100000)
+    if r == 5:
+        return 800000000 + mid * 100000 + rng.randrange(100000)
+    if r == 6:
+        return 980000000 + mid * 10000 + rng.randrange(10000)
+    if r == 7:
+        return rng.choice([0, 1, 999999999, 1000000000, 1000000001, (1 << 30) - 1, 123456789, 99999999])
+    if r == 8:
+        return rng.randrange(1000000000, 1 << 30)
+    return mid * 1000000 + rng.randrange(1000000)
+
+
 def base_fields(t, rng, layout):
     f = {}
     for (name, off, w) in layout:
         f[name] = rng.getrandbits(w)
         if name in TEXT_FIELDS and w % 6 == 0 and rng.random() < 0.5:
             f[name] = chars_value(structured_chars(rng, w // 6))
+        if w == 30 and "mmsi" in name and rng.random() < 0.5:
+            f[name] = structured_mmsi(rng)
     f["type"] = type_code(t)
     if t == "24A":
         f["partno"] = 0
@@ -129,6 +188,23 @@ def payload_cases(t, rng, n_random, walks=True):
             f = base_fields(t, rng, layout)
             f[name] = v
             yield ("special:" + name, full_payload(t, f) + tail_for(t, rng))
+    # several fields at special values at once (a value of one field that changes how another is reported)
+    names = [(name, w) for (name, off, w) in layout if name not in fixed]
+    for _ in range(n_random):
+        f = base_fields(t, rng, layout)
+        for (name, w) in rng.sample(names, min(len(names), rng.choice([2, 2, 3, 4]))):
+            f[name] = rng.choice(field_specials(name, w))
+        yield ("joint-special", full_payload(t, f) + tail_for(t, rng))
+    if any(n_ in ("hour", "eta_hour") for (n_, o_, w_) in layout):
+        for tm in NOTABLE_TIMES:
+            f = apply_notable_time(base_fields(t, rng, layout), tm)
+            yield ("notable-time", full_payload(t, f) + tail_for(t, rng))
+    if t == 16:
+        # both destinations the same / related stations (a rule that compares fields of one message with each other)
+        for _ in range(6):
+            f = base_fields(t, rng, layout)
+            f["mmsi2"] = f["mmsi1"] if rng.random() < 0.7 else f["mmsi"]
+            yield ("same-station", full_payload(t, f))
     for _ in range(n_random):
         f = base_fields(t, rng, layout)
         yield ("random", full_payload(t, f) + tail_for(t, rng))
@@ -149,6 +225,11 @@ def tail_for(t, rng):
         pad = (8 - total % 8) % 8
         # header is byte-aligned for both (72, 40), so the tail is just the text bits
         return ais.bits_to_bytes(bits + [0] * pad)
+    # every other type: now and then more bytes than the layout needs (a longer payload is decoded by its layout;
+    # what follows it - a name extension, future fields, padding, garbage - is not part of any reported field)
+    if rng.random() < (0.5 if t == 21 else 0.25):
+        # (type 21 may carry up to 88 bits of name extension after its 272 bits)
+        return bytes(rng.getrandbits(8) | rng.choice([0, 0, 1, 0x80]) for _ in range(rng.choice([1, 1, 2, 3, 6, 11])))
     return b""
 
 
@@ -165,6 +246,6 @@ def valid_message_payload(rng, t=None):
         t = rng.choice(ALL_TYPES)
     f = base_fields(t, rng, ais.LAYOUTS[t])
     bs = full_payload(t, f) + tail_for(t, rng)
-    nbits = ais.FULL_BITS[t] if t not in (6, 8, 12, 14, 17) else len(bs) * 8
+    nbits = len(bs) * 8 if (t in (6, 8, 12, 14, 17) or len(bs) * 8 > ais.FULL_BITS[t]) else ais.FULL_BITS[t]
     bits = ais.bytes_to_bits(bs, nbits) if nbits <= len(bs) * 8 else ais.bytes_to_bits(bs)
     return ais.armor(bits)
